@@ -396,4 +396,223 @@ theorem acq_of_holdsR (r : List Event) (p : Nat) (path : Path) (h : holdsR r p p
           · exact hnor (Or.inr h'.symm)
           · exact h2 h'
 
+/-! ## The histories of the protocol machine are accepted by the monitor -/
+
+theorem holdsAny_true {h : Held} {path : Path} (hh : holdsAny h path = true) :
+    ∃ q, holdsBy h q path = true := by
+  simp only [holdsAny, List.any_eq_true, beq_iff_eq] at hh
+  obtain ⟨⟨q, x⟩, hm, hx⟩ := hh
+  simp only at hx
+  subst hx
+  exact ⟨q, (holdsBy_iff h q x).mpr hm⟩
+
+theorem holdsSome_true {h : Held} {p : Nat} (hh : holdsSome h p = true) :
+    ∃ path, holdsBy h p path = true := by
+  simp only [holdsSome, List.any_eq_true, beq_iff_eq] at hh
+  obtain ⟨⟨q, x⟩, hm, hx⟩ := hh
+  simp only at hx
+  subst hx
+  exact ⟨x, (holdsBy_iff h q x).mpr hm⟩
+
+theorem mutexTrace_snoc (u : List Event) (e : Event) :
+    mutexTrace (u ++ [e]) = (mutexTrace u && okEvent (heldOf [] u) e) := by
+  simp [mutexTrace, monitorFrom_append, monitorFrom]
+
+theorem heldOf_snoc (u : List Event) (e : Event) : heldOf [] (u ++ [e]) = heldAfter (heldOf [] u) e := by
+  simp [heldOf]
+
+/-- the monitor accepts the history so far and its `held` set is exactly the lock cells of the state -/
+def TraceInv (s : State) : Prop :=
+  mutexTrace s.hist.reverse = true ∧
+  ∀ p path, holdsBy (heldOf [] s.hist.reverse) p path = true ↔ s.owner path = some p
+
+theorem traceInv_push {s : State} (ht : TraceInv s) (e : Event) (pc' : Nat → PC) (owner' : Path → Option Nat)
+    (fs' : FS) (hok : okEvent (heldOf [] s.hist.reverse) e = true)
+    (hiff : ∀ p path, holdUpd e p path (holdsBy (heldOf [] s.hist.reverse) p path) = true ↔ owner' path = some p) :
+    TraceInv { pc := pc', owner := owner', fs := fs', hist := e :: s.hist } := by
+  obtain ⟨h1, _⟩ := ht
+  constructor
+  · simp only [List.reverse_cons]
+    rw [mutexTrace_snoc, h1, hok]; rfl
+  · intro p path
+    simp only [List.reverse_cons]
+    rw [heldOf_snoc, holdsBy_heldAfter]
+    exact hiff p path
+
+theorem traceInv_keep {s : State} (ht : TraceInv s) (pc' : Nat → PC) (fs' : FS) :
+    TraceInv { pc := pc', owner := s.owner, fs := fs', hist := s.hist } := ht
+
+theorem holdUpd_true_iff (e : Event) (p : Nat) (path : Path) (b : Bool) :
+    holdUpd e p path b = true ↔ (e = .acq p path ∨ (¬ (e = .rel p path ∨ e = .crash p) ∧ b = true)) := by
+  unfold holdUpd
+  split
+  · simp_all
+  · split <;> simp_all
+
+theorem traceInv_release {jobs : Nat → Job} {s : State} (hinv : Inv jobs s) (ht : TraceInv s) (p i : Nat)
+    (hp : s.pc p = .inCS i) (c : PC) (e : Event) (he : e = .rel p (jobs p).pool ∨ e = .crash p) :
+    TraceInv (release s p (jobs p).pool c e) := by
+  obtain ⟨h1, h2⟩ := hinv
+  have hown : s.owner (jobs p).pool = some p := h1 p i hp
+  have hheld := (ht.2 p (jobs p).pool).mpr hown
+  unfold release
+  apply traceInv_push ht
+  · rcases he with he | he <;> subst he <;> simp [okEvent, hheld]
+  · intro q x
+    rw [holdUpd_true_iff, ht.2 q x]
+    have hpool : ∀ y, s.owner y = some p → y = (jobs p).pool := fun y hy => (h2 y p hy).2.symm
+    by_cases hx : x = (jobs p).pool
+    · subst hx
+      simp only [setOwner, if_true]
+      constructor
+      · rintro (h' | ⟨hn, h'⟩)
+        · rcases he with he | he <;> subst he <;> cases h'
+        · rw [hown] at h'
+          have hq : p = q := Option.some.inj h'
+          subst hq
+          rcases he with he | he <;> subst he
+          · exact absurd (Or.inl rfl) hn
+          · exact absurd (Or.inr rfl) hn
+      · intro h'; cases h'
+    · simp only [setOwner, hx, if_false]
+      constructor
+      · rintro (h' | ⟨_, h'⟩)
+        · rcases he with he | he <;> subst he <;> cases h'
+        · exact h'
+      · intro h'
+        right
+        refine ⟨?_, h'⟩
+        have hqp : q ≠ p := by
+          intro heq; subst heq; exact hx (hpool x h')
+        rcases he with he | he <;> subst he
+        · rintro (h'' | h'')
+          · injection h'' with a b; exact hqp a.symm
+          · cases h''
+        · rintro (h'' | h'')
+          · cases h''
+          · injection h'' with a; exact hqp a.symm
+
+theorem traceInv_crash_outside {jobs : Nat → Job} {s : State} (hinv : Inv jobs s) (ht : TraceInv s) (p : Nat)
+    (hnot : ∀ i, s.pc p ≠ .inCS i) (pc' : Nat → PC) :
+    TraceInv { s with pc := pc', hist := .crash p :: s.hist } := by
+  apply traceInv_push ht
+  · simp [okEvent]
+  · intro q x
+    rw [holdUpd_true_iff, ht.2 q x]
+    constructor
+    · rintro (h' | ⟨_, h'⟩)
+      · cases h'
+      · exact h'
+    · intro h'
+      right
+      refine ⟨?_, h'⟩
+      rintro (h'' | h'')
+      · cases h''
+      · injection h'' with a
+        subst a
+        obtain ⟨⟨i, hi⟩, _⟩ := hinv.2 x p h'
+        exact absurd hi (hnot i)
+
+theorem traceInv_stepAct {limit : Nat} {jobs : Nat → Job} {s s' : State} {p : Nat} {a : Act}
+    (hinv : Inv jobs s) (ht : TraceInv s) (h : stepAct limit jobs s p a = some s') : TraceInv s' := by
+  unfold stepAct at h
+  split at h
+  · split at h <;> (cases h; exact traceInv_keep ht _ _)
+  · rename_i k hpc
+    have hnot : ∀ i, s.pc p ≠ .inCS i := by intro i; rw [hpc]; simp
+    split at h
+    · split at h
+      · rename_i hfree
+        cases h
+        apply traceInv_push ht
+        · simp only [okEvent, Bool.not_eq_true']
+          cases hany : holdsAny (heldOf [] s.hist.reverse) (jobs p).pool with
+          | false => rfl
+          | true =>
+            obtain ⟨q, hq⟩ := holdsAny_true hany
+            rw [ht.2 q _, hfree] at hq; cases hq
+        · intro q x
+          rw [holdUpd_true_iff, ht.2 q x]
+          by_cases hx : x = (jobs p).pool
+          · subst hx
+            simp only [setOwner, if_true]
+            constructor
+            · rintro (h' | ⟨_, h'⟩)
+              · injection h' with a b; rw [a]
+              · rw [hfree] at h'; cases h'
+            · intro h'
+              left
+              have := Option.some.inj h'
+              rw [this]
+          · simp only [setOwner, hx, if_false]
+            constructor
+            · rintro (h' | ⟨_, h'⟩)
+              · injection h' with a b; exact absurd b.symm hx
+              · exact h'
+            · intro h'
+              right
+              refine ⟨?_, h'⟩
+              rintro (h'' | h'') <;> cases h''
+      · cases h; exact traceInv_keep ht _ _
+    · cases h
+      apply traceInv_push ht
+      · simp only [okEvent, Bool.not_eq_true']
+        cases hany : holdsSome (heldOf [] s.hist.reverse) p with
+        | false => rfl
+        | true =>
+          obtain ⟨x, hx⟩ := holdsSome_true hany
+          rw [ht.2 p x] at hx
+          obtain ⟨⟨i, hi⟩, _⟩ := hinv.2 x p hx
+          exact absurd hi (hnot i)
+      · intro q x
+        rw [holdUpd_true_iff, ht.2 q x]
+        constructor
+        · rintro (h' | ⟨_, h'⟩)
+          · cases h'
+          · exact h'
+        · intro h'
+          exact Or.inr ⟨(by rintro (h'' | h'') <;> cases h''), h'⟩
+  · rename_i i hpc
+    split at h
+    · split at h
+      · cases h
+        apply traceInv_push ht
+        · simp only [okEvent]
+          exact (ht.2 p _).mpr (hinv.1 p i hpc)
+        · intro q x
+          rw [holdUpd_true_iff, ht.2 q x]
+          constructor
+          · rintro (h' | ⟨_, h'⟩)
+            · cases h'
+            · exact h'
+          · intro h'
+            exact Or.inr ⟨(by rintro (h'' | h'') <;> cases h''), h'⟩
+      · cases h
+        exact traceInv_release hinv ht p i hpc _ _ (Or.inl rfl)
+    · cases h
+  · rename_i i hpc
+    split at h
+    · cases h; exact traceInv_release hinv ht p i hpc _ _ (Or.inl rfl)
+    · cases h
+  · rename_i i hpc
+    cases h; exact traceInv_release hinv ht p i hpc _ _ (Or.inl rfl)
+  · rename_i i hpc
+    cases h; exact traceInv_release hinv ht p i hpc _ _ (Or.inr rfl)
+  · rename_i k hpc
+    have hnot : ∀ i, s.pc p ≠ .inCS i := by intro i; rw [hpc]; simp
+    cases h; exact traceInv_crash_outside hinv ht p hnot _
+  · rename_i hpc
+    have hnot : ∀ i, s.pc p ≠ .inCS i := by intro i; rw [hpc]; simp
+    cases h; exact traceInv_crash_outside hinv ht p hnot _
+  · cases h
+
+theorem traceInv_reachable {limit : Nat} {jobs : Nat → Job} {fs0 : FS} {s : State}
+    (h : Reachable limit jobs fs0 s) : TraceInv s := by
+  induction h with
+  | init =>
+    constructor
+    · simp [State.init, mutexTrace, monitorFrom]
+    · intro p path; simp [State.init, heldOf, holdsBy]
+  | step p a hr hstep ih => exact traceInv_stepAct (inv_reachable hr) ih hstep
+
 end I2N.Transfer
